@@ -417,6 +417,8 @@ impl Wake for FlagWaker {
 }
 
 pub struct RunOut {
+    /// the runner itself panicked while being polled (message)
+    pub panicked: Option<String>,
     pub log: Vec<String>,
     /// events received from the stream, abstracted by names
     pub ended: bool,
@@ -535,6 +537,7 @@ where
     let mut ended = false;
     let mut stuck = false;
     let mut idle_since: Option<Instant> = None;
+    let mut panicked: Option<String> = None;
     let mut script = cfg.env_script.iter().copied();
     loop {
         polls += 1;
@@ -545,7 +548,19 @@ where
         }
         fw.0.store(false, Ordering::SeqCst);
         let before = with(|c| c.log.len());
-        match stream.as_mut().poll_next(&mut cx) {
+        let polled = std::panic::catch_unwind(std::panic::AssertUnwindSafe(|| stream.as_mut().poll_next(&mut cx)));
+        let polled = match polled {
+            Ok(p) => p,
+            Err(payload) => {
+                let msg = payload.downcast_ref::<String>().cloned()
+                    .or_else(|| payload.downcast_ref::<&'static str>().map(|s| (*s).to_owned()))
+                    .unwrap_or_else(|| "non-string payload".to_owned());
+                log(format!("HARNESS runner-panicked {msg}"));
+                panicked = Some(msg);
+                break;
+            }
+        };
+        match polled {
             Poll::Ready(Some(ev)) => {
                 log(describe_rx(&ev));
                 idle_since = None;
@@ -618,7 +633,7 @@ where
             }
         }
     }
-    RunOut { log: vec![], ended, polls, stuck }
+    RunOut { panicked, log: vec![], ended, polls, stuck }
 }
 
 // ---------------------------------------------------------------------------
